@@ -59,9 +59,28 @@ def tracer_cases():
     resid = tr(6, [call, ret, log, dict(end, resid=1)])
     sampled_skip = tr(7, [call, ret, end], rate=2)                           # allowed under sampling
     sampled_lost = tr(8, [dict(call, drawn=True, draw=0), ret, end], rate=2)  # the draw said "trace" but nothing was logged
-    return [good, dropped, twice, wrongarg, noret, resid, sampled_skip, sampled_lost], {
+    # a delegation chain: the generator g delegates to h (`yield from`); h yields a str, which g thereby yields too
+    gcall = dict(call, fid=1, f="g", kind="gen")
+    hcall = dict(call, fid=2, f="h", kind="gen")
+    chain = [gcall, hcall, {"ev": "Resume", "fid": 1, "caller": 0, "catch": True, "drawn": False, "draw": 0},
+             {"ev": "Delegate", "fid": 2, "caller": 1, "catch": True, "drawn": False, "draw": 0},
+             {"ev": "Yield", "fid": 2, "v": VS}, {"ev": "Yield", "fid": 1, "v": VS},
+             {"ev": "Resume", "fid": 1, "caller": 0, "catch": True, "drawn": False, "draw": 0},
+             {"ev": "Return", "fid": 2, "how": "expr", "v": V1},
+             dict(log, f="h", ret=INT, ys=STR),
+             {"ev": "Return", "fid": 1, "how": "implicit", "v": VN},
+             dict(log, f="g", ret=NONE, ys=STR), end]
+    deleg_ok = tr(9, chain)
+    deleg_bad = tr(10, chain[:10] + [dict(log, f="g", ret=NONE, ys=ABSENT), end])     # the delegating frame's yield is lost
+    # an async generator: yields reported through the interpreter's wrapper carry their own clause names
+    acall = dict(call, fid=1, f="ag", kind="agen")
+    agen = tr(11, [acall, {"ev": "Resume", "fid": 1, "caller": 0, "catch": True, "drawn": False, "draw": 0}, {"ev": "Yield", "fid": 1, "v": V1},
+                   {"ev": "Resume", "fid": 1, "caller": 0, "catch": True, "drawn": False, "draw": 0},
+                   {"ev": "Return", "fid": 1, "how": "implicit", "v": VN},
+                   dict(log, f="ag", ret=NONE, ys=T("cls", "async_generator_wrapped_value")), end])
+    return [good, dropped, twice, wrongarg, noret, resid, sampled_skip, sampled_lost, deleg_ok, deleg_bad, agen], {
         1: set(), 2: {"MissingLog"}, 3: {"SpuriousLog"}, 4: {"ArgTypes"}, 5: {"ReturnPresent"}, 6: {"Residue"}, 7: set(),
-        8: {"SampledCallNotLogged"}}
+        8: {"SampledCallNotLogged"}, 9: set(), 10: {"YieldsCovered"}, 11: {"AsyncGenYieldsCovered"}}
 
 
 def store_cases():
@@ -79,7 +98,13 @@ def store_cases():
     lost = {"tid": 3, "events": [start, okend, full, empty]}                   # a committed batch disappears
     extra = {"tid": 4, "events": [start, okend, dict(fl, p=[ord("f")])]}      # prefix f returns g as well
     inflight = {"tid": 5, "events": [start, empty, full, okend]}              # becoming visible while in flight is fine
-    return [good, torn, lost, extra, inflight], {1: set(), 2: {"Atomic"}, 3: {"Atomic"}, 4: {"FilterExact"}, 5: set()}
+    # free-running: an answer reflects some moment between its QueryStart and its arrival
+    qs = {"ev": "QueryStart", "c": "c2"}
+    none_seen = dict(fl, res=[])
+    interval_ok = {"tid": 6, "events": [qs, start, okend, none_seen]}              # asked before the batch was committed
+    stale = {"tid": 7, "events": [start, okend, qs, none_seen]}                    # asked after: the batch must be there
+    return [good, torn, lost, extra, inflight, interval_ok, stale], {1: set(), 2: {"Atomic"}, 3: {"Atomic"}, 4: {"FilterExact"}, 5: set(),
+                                                                    6: set(), 7: {"FilterExact"}}
 
 
 def stub_cases():
@@ -106,6 +131,100 @@ def stub_cases():
         7: {"DenotesSame"}, 8: {"AnnotationMatrix"}}
 
 
+def pipeline_cases():
+    D = lambda *pairs: T("dict", "", [T("pair", "", [T("str", k), v]) for k, v in pairs])  # noqa: E731
+    pos = {"f": "f1", "pos": "x", "vals": [V1, VS], "ann": T("union", "", [], [INT, STR]), "defnone": False}
+    base = {"tid": 1, "ev": "Sound", "k": 0, "tight": True, "positions": [pos], "tds": [], "stored": [], "obs": [], "tdobs": [], "ib_agrees": True}
+
+    def mut(tid, **kw):
+        r = copy.deepcopy(base)
+        r["tid"] = tid
+        for k2, v in kw.items():
+            if k2 in r:
+                r[k2] = v
+            else:
+                r["positions"][0][k2] = v
+        return r
+    same = {"tid": 7, "ev": "Same", "k": 0, "tight": False, "positions": [], "tds": [], "stored": [], "ib_agrees": True,
+            "obs": [[{"f": "f1", "pos": "x", "ann": INT}], [{"f": "f1", "pos": "x", "ann": STR}]], "tdobs": [[], []]}
+    same_ok = copy.deepcopy(same)
+    same_ok.update(tid=8)
+    same_ok["obs"][1][0]["ann"] = INT
+    return [base, mut(2, ann=INT), mut(3, ann=T("union", "", [], [INT, STR, NONE])), mut(4, ann=T("unresolved", "pkg")),
+            mut(5, ann=T("union", "", [], [INT, STR, NONE]), tight=False),          # not tight, but a rewriter ran: no verdict
+            mut(6, k=2, vals=[V1], ann=T("td", "", [], [T("req", "a", [INT])])),      # a TypedDict where no record was seen
+            same, same_ok,
+            mut(9, k=1, tds=[{"name": "XTypedDict__RENAME_ME__", "nkeys": 2}], vals=[D(("a", V1), ("b", V1))],
+                ann=T("td", "", [], [T("req", "a", [INT]), T("req", "b", [INT])]))], {
+        1: set(), 2: {"EndToEndSound"}, 3: {"EndToEndTight"}, 4: {"AnnotationResolves"}, 5: set(), 6: {"TypedDictOnlyFromRecords"},
+        7: {"OrderAndProcessFree"}, 8: set(), 9: {"StubTDBound"}}
+
+
+def decode_cases():
+    base = {"tid": 1, "cmd": "stub", "verbose": False, "kinds": ["valid", "function_removed"], "rc": 0, "crashed": "NONE", "same": True,
+            "stub_present": True, "count": 1, "warnings": 0, "no_traces_msg": False}
+
+    def mut(tid, **kw):
+        return dict(copy.deepcopy(base), tid=tid, **kw)
+    return [base, mut(2, rc=1), mut(3, crashed="NameLookupError"), mut(4, same=False), mut(5, count=-1), mut(6, count=2),
+            mut(7, verbose=True, warnings=0), mut(8, verbose=True, warnings=1), mut(9, kinds=["function_removed"], stub_present=True),
+            mut(10, kinds=["function_removed"], stub_present=False, no_traces_msg=True),
+            mut(11, cmd="stub_diff", verbose=True, warnings=2), mut(12, kinds=["valid", "dunder_removed"], count=-1)], {
+        1: set(), 2: {"NeverFatal"}, 3: {"NeverFatal"}, 4: {"OutputEqualsDecodableOnly"}, 5: {"CountReported"}, 6: {"CountReported"},
+        7: {"EachReported"}, 8: set(), 9: {"NoTracesSaid"}, 10: set(), 11: set(), 12: {"CountReported"}}
+
+
+def interfere_cases():
+    base = {"tid": 1, "hooks": [{"role": "arg", "proto": "__eq__", "inside": False}], "obsU": ["1"], "obsT": ["1"], "prevOK": True,
+            "flushes": 1, "escaped": "NONE"}
+
+    def mut(tid, **kw):
+        return dict(copy.deepcopy(base), tid=tid, **kw)
+    return [base, mut(2, hooks=[{"role": "arg", "proto": "__eq__", "inside": True}]), mut(3, obsT=["2"]), mut(4, escaped="RuntimeError"),
+            mut(5, prevOK=False), mut(6, flushes=0), mut(7, flushes=3)], {
+        1: set(), 2: {"NoUserCode"}, 3: {"SameBehaviour"}, 4: {"Contained"}, 5: {"Restored"}, 6: {"FlushedOnce"}, 7: {"FlushedOnce"}}
+
+
+def filter_cases():
+    root = ["lib", "r1"]
+
+    def adm(tid, resolved, verdict, allow=(), module=("proj", "m"), kind="real"):
+        return {"tid": tid, "ev": "Admit", "kind": kind, "resolved": resolved, "roots": [root], "module": list(module), "allow": list(allow),
+                "allowset": bool(allow), "stem": resolved[-1][:-3] if resolved else "", "verdict": verdict, "modules": [], "expected": [], "got": []}
+    run = {"tid": 7, "ev": "Run", "modules": ["usermod"], "expected": ["usermod.f"], "got": ["usermod.f"], "kind": "", "resolved": [], "roots": [],
+           "module": [], "allow": [], "allowset": False, "stem": "", "verdict": False}
+    return [adm(1, ["proj", "m.py"], True), adm(2, ["proj", "m.py"], False), adm(3, ["lib", "r1", "pkg", "m.py"], True, module=("pkg", "m")),
+            adm(4, ["lib", "r1", "pkg", "m.py"], False, module=("pkg", "m")), adm(5, [], True, kind="synthetic", module=("x",)),
+            adm(6, ["lib", "r1", "pkg", "m.py"], True, allow=["pkg"], module=("pkg", "m")), run,
+            dict(run, tid=8, modules=["__main__", "usermod"], got=["__main__.g", "usermod.f"]), dict(run, tid=9, got=[])], {
+        1: set(), 2: {"UnderAdmits"}, 3: {"OverAdmits"}, 4: set(), 5: {"OverAdmits"}, 6: set(), 7: set(), 8: {"NeverMain"},
+        9: {"AllAdmittedRecorded"}}
+
+
+def apply_cases():
+    imp = lambda kind, module, name, alias, block, runtime=False: {"kind": kind, "module": module, "name": name, "alias": alias, "block": block, "runtime": runtime}  # noqa: E731
+    pos = {"f": "f1", "pos": "a", "src": "", "stub": "int", "res": "int", "src_raw": "", "res_raw": "int"}
+    base = {"tid": 1, "overwrite": False, "confine": True, "failed": False, "parses": True, "erasure": True, "idempotent": True, "importable": True,
+            "behaviour": True, "future_first": True, "src_imports": [imp("import", "zshapes", "", "", "top", True)],
+            "res_imports": [imp("import", "zshapes", "", "", "top", True), imp("from", "zshapes", "Circle", "", "tc")],
+            "stub_imports": [{"module": "zshapes", "name": "Circle"}], "positions": [pos], "idem_delta": ""}
+
+    def mut(tid, **kw):
+        r = dict(copy.deepcopy(base), tid=tid)
+        for k2, v in kw.items():
+            if k2 in r:
+                r[k2] = v
+            else:
+                r["positions"][0][k2] = v
+        return r
+    return [base, mut(2, erasure=False), mut(3, idempotent=False), mut(4, res=""), mut(5, res_imports=[imp("from", "zshapes", "Circle", "", "tc")]),
+            mut(6, res_imports=base["res_imports"][:1] + [imp("from", "zshapes", "Circle", "", "top")]), mut(7, importable=False),
+            mut(8, future_first=False), mut(9, failed=True), mut(10, src="str", src_raw="str", res="int", res_raw="int"),
+            mut(11, res_imports=base["res_imports"][:1] + [imp("from", "zshapes", "Circle", "", "tc", True)])], {
+        1: set(), 2: {"ErasureEqual"}, 3: {"Idempotent"}, 4: {"AnnotationsPresent"}, 5: {"ExistingUnmoved"}, 6: {"ConfinedAllNew"},
+        7: {"Importable"}, 8: {"FutureFirst"}, 9: {"ApplyFails"}, 10: {"ExistingKept"}, 11: {"ConfinedOnlyNewAnnotationOnly"}}
+
+
 def main():
     envgen.load_fixture_classes()
     env = {"MTEnv.tla": envgen.mtenv_text()}
@@ -118,6 +237,17 @@ def main():
     ok &= expect("store", "MTStoreTrace", "MTInferTrace.cfg", recs, want)
     recs, want = stub_cases()
     ok &= expect("stub", "MTStubTrace", "MTInferTrace.cfg", recs, want, env)
+    recs, want = pipeline_cases()
+    ok &= expect("pipeline", "MTPipelineTrace", "MTPipelineTrace.cfg", recs, want, env)
+    recs, want = decode_cases()
+    ok &= expect("decode", "MTDecodeTrace", "MTDecodeTrace.cfg", recs, want)
+    recs, want = interfere_cases()
+    ok &= expect("interfere", "MTInterfereTrace", "MTInferTrace.cfg", recs, want)
+    recs, want = filter_cases()
+    ok &= expect("filter", "MTFilterTrace", "MTInferTrace.cfg", recs, want)
+    recs, want = apply_cases()
+    ok &= expect("apply", "MTApplyTrace", None, recs, want,
+                 {"MTApplyTrace.cfg": "SPECIFICATION Spec\nCONSTANTS\n  Dev_RemoveByModule = FALSE\nCHECK_DEADLOCK FALSE\n"})
     return 0 if ok else 2
 
 
